@@ -349,6 +349,35 @@ def pristine(path, conv=False):
                 r = build_path(path)
                 out[("dump", name, j)] = outcome(r.dump, v, hint)
     _PRISTINE[key] = out
+    if not conv:
+        for akey, want in anchors(path).items():
+            if out[akey] != want:
+                ANCHOR_FAILURES.append((path, akey, out[akey], want))
+    return out
+
+
+ANCHOR_FAILURES = []
+
+
+def anchors(path):
+    """absolute expectations for a few probes, written from the meaning of the operations (extend puts the provider in front,
+    replace changes one option): they anchor the differential oracle, which by itself cannot see state shared by ALL retorts
+    of the process (a cache hoisted to module or class level answers the fresh reference retort wrongly too)"""
+    ext = [op[1] for op in path if op[0] == "extend"]
+    lax = any(op[0] == "replace" and op[1] == "strict_coercion" and op[2] is False for op in path)
+    plus = "loader(int,+1)" in ext
+    out = {
+        ("load", "int", LOAD_DATA.index(1)): "ok:" + render(2 if plus else 1),
+        ("load", "int", LOAD_DATA.index(0)): "ok:" + render(1 if plus else 0),
+        ("load", "List[int]", 5): "ok:" + render([2] if plus else [1]),
+        ("dump", "int", DUMP_VALUES.index(1)): "ok:" + render(10 if "dumper(int,*10)" in ext else 1),
+        ("load", "M(a:int)", LOAD_DATA.index({"a": 1})):
+            ("err:" if "name_mapping(M,a->A)" in ext else "ok:") + ("" if "name_mapping(M,a->A)" in ext else render(M_int(2 if plus else 1))),
+    }
+    if not plus:
+        out[("load", "int", LOAD_DATA.index("a"))] = "err:" + ("ValueLoadError" if lax else "TypeLoadError")
+    if "name_mapping(M,a->A)" in ext:
+        del out[("load", "M(a:int)", LOAD_DATA.index({"a": 1}))]      # only that it fails; the error class depends on debug_trail
     return out
 
 
@@ -393,6 +422,13 @@ def run_history(hist, report):
             if got != want[(direction, name, j)]:
                 n_diff += 1
                 _violation(report, hist, paths[idx], (direction, name, j), got, want[(direction, name, j)], "handed_out")
+    while ANCHOR_FAILURES:
+        apath, akey, got, want = ANCHOR_FAILURES.pop()
+        n_diff += 1
+        report.violation({"check": "C11", "kind": "fresh_retort_answers_wrongly"},
+                         f"a FRESH retort built by {[list(o) for o in apath]} (cold caches, after history {hist_json} ran in the process) "
+                         f"answers probe {akey} with {got}; the operations mean {want}: state shared between all retorts",
+                         {"history": hist_json, "path": [list(o) for o in apath], "probe": list(map(str, akey))})
     report.outcome("history with differences" if n_diff else "history independent")
     report.outcome(f"retorts_in_state={len(paths)}")
 
